@@ -58,6 +58,17 @@ def handle (op : String) (args : List String) (impl : String) : String :=
                else if tok itoks "digests" != "true" then "fails:digests-after-resign" else "holds"
       let _ := r
       answer m v "stale-resign"
+  | "lazy8", "fail" :: how :: _ =>
+    -- a refusing signer: build_and_sign yields no package; sign_with_timestamp leaves the package as it was, so the header
+    -- digest is still recorded and still true
+    if how == "bas" then answer "ok refused" (if impl == "ok refused" then "holds" else "fails:" ++ impl.replace " " "_") "refusing-signer" else
+    if !impl.startsWith "ok " then answer "ok" ("fails:" ++ impl.replace " " "_") "refusing-signer" else
+    let itoks := (impl.splitOn " ").filter (· ≠ "")
+    let hreal := tok itoks "hreal"
+    let m := s!"ok hsha={hreal} hreal={hreal} digests=true verify=refused"
+    let v := if tok itoks "hsha" != hreal then "fails:header-digest-after-refused-signing"
+             else if tok itoks "digests" != "true" then "fails:digests-after-refused-signing" else "holds"
+    answer m v "refusing-signer"
   | "lazy8", _ :: _ :: _ =>
     -- a signer that reads only part of its input: the recorded header digest is the digest of the written header all the same,
     -- the digests verify and the (genuine) signature over the header verifies; `hreal` is copied from the observation
